@@ -49,34 +49,48 @@ LEVEL_TEXT = ('Lean theorems for every CSS parity-check matrix (pure-X / pure-Z 
               'growth by half-edges, find_root with path compression, merge_clusters, _update_parents, the '
               'breadth-first spanning tree, peeling, the correction vector) are modelled executably '
               '(Model/UnionFind.lean) and compared with the running implementation step by step on every run; for '
-              'every closed graph (0/1 matrix, every column of weight 0 or 2, no parallel edges: the toric lattices '
-              'with sides >= 3), every error and every iteration order of the Python sets it is proved that the growth '
+              'every closed multigraph (0/1 matrix, every column of weight 0 or 2, two rows sharing fewer than 256 '
+              'columns - parallel edges allowed: ALL toric lattices, sides >= 2), every error and every iteration '
+              'order of the Python sets it is proved that the growth '
               'loop terminates, every cluster is connected and even, _build_tree returns a spanning tree, peeling '
-              'returns qubits whose boundary is exactly the defect set, and Support.decode() returns a binary '
+              '(one qubit per syndrome-carrying leaf, the first it shares with its parent: the code since the repair '
+              'of the former finding D15) returns qubits whose boundary is exactly the defect set, and '
+              'Support.decode() returns a binary '
               'length-n vector with exactly the given syndrome, which discharges the union-find solver contract: '
               'UnionFindDecoder.decode reproduces the syndrome with no hypothesis left; with dangling edges (planar '
-              'codes) partial correctness is proved and non-termination exhibited; the model is proved to FAIL on '
-              'Toric2DCode(2,2) (parallel edges) exactly as the implementation does. ALL LATTICE SIZES '
+              'codes) partial correctness is proved and non-termination exhibited; the bound 256 is necessary (uint8 '
+              'product H H^T wraps: kernel-evaluated, and the implementation hangs on exactly 256 parallel edges). '
+              'Regression theorems about the code BEFORE the repair (kept as old... definitions): it is proved to FAIL '
+              'on Toric2DCode(2,2) (both parallel qubits of a tree edge flipped: X on qubit 0 answered by qubits 0 and '
+              '2, zero syndrome) where the repaired model returns the error itself, and to agree with the repaired '
+              'code, outcome and every peeling trace, on every simple graph for every syndrome and schedule (the repair '
+              'is conservative). ALL LATTICE SIZES '
               '(Properties/C05UnionFindToric): for every Lx, Ly >= 2 the two matrices UnionFindDecoder hands to '
               'Support (code.Hz = Z block of the vertex rows, code.Hx = X block of the face rows of the matrix '
               'assembled from the all-sizes lattice model of Toric2DCode) are proved to be the vertex/qubit and '
-              'face/qubit incidence matrices, every qubit lies in exactly two vertex and two face operators, and for '
-              'every Lx, Ly >= 3 two generators of one type share at most one qubit, so both are closed graphs: for '
-              'every Toric2DCode(Lx, Ly) with sides >= 3, every Pauli error and every set iteration order the modelled '
+              'face/qubit incidence matrices, every qubit lies in exactly two vertex and two face operators and two '
+              'generators share at most four qubits, so both are closed multigraphs: for '
+              'every Toric2DCode(Lx, Ly) with sides >= 2 (the whole supported family, sides of length 2 included), '
+              'every Pauli error and every set iteration order the modelled '
               'UnionFindDecoder.decode returns a binary length-2n vector with exactly the measured syndrome and '
               'error+correction is in the code space (is_success iff the residual is a product of generators, with '
-              'C01 valid_code and C04); conversely for EVERY size with a side equal to 2 both sector matrices are '
-              'proved to have parallel edges (not graph-like): closedGraph holds exactly for sides >= 3.')
+              'C01 valid_code and C04); for every Lx, Ly >= 3 two generators of one type share at most one qubit '
+              '(simple graphs), for EVERY size with a side equal to 2 both sector matrices are proved to have parallel '
+              'edges: closedGraph holds exactly for sides >= 3, closedMultigraph for all.')
 LEVEL_NOTE = ('trusted (modelled, not verified): PyMatching Matching.decode (returns a minimum-weight solution of '
               'H c = s), ldpc BpOsdDecoder.decode (return value solves H c = s for s in im H); each contract is '
               'tested on every run by the spy. uf_support.Support is not a black box: its internals are modelled, tied '
               'by a step-granular correspondence (growth states, parent arrays incl. path compression, cluster '
-              'records, spanning trees, peeling rounds, correction) and proved totally correct on closed graphs for '
+              'records, spanning trees, peeling rounds, peeled index lists, correction) and proved totally correct on '
+              'closed multigraphs for '
               'every set iteration order; CPython set iteration order is not modelled: recorded from the run and fed '
-              'to the model, which validates it. That Toric2DCode with sides >= 3 has closed-graph sector matrices is '
+              'to the model, which validates it. That Toric2DCode with sides >= 2 has closed-multigraph sector '
+              'matrices (closed simple graphs for sides >= 3) is '
               'proved for all sizes about the hand-written lattice model (tied to the class by the C01 '
               'correspondence and, per run, by the op uf.toric: the sector matrices of the model equal code.Hz / '
-              'code.Hx and are in the proved class, sizes up to 7x4, 10x10 thorough). Tested only, not '
+              'code.Hx and are in the proved class, sizes up to 7x4, 10x10 thorough). The old... definitions model '
+              'uf_support.py before the repair c364d83 and are tied to nothing on the current tree (regression '
+              'theorems only; they were the compared model until that commit). Tested only, not '
               'proved: constructibility of every (decoder, allowed code) pair; "returns a binary length-2n vector '
               'without raising" for the sweep-match decoders, whose sweepers are modelled by interface only (sweep '
               'automata: C10). MBP: the float message passing (log_exp_bias, tanh_prod, gamma/delta updates) is not '
@@ -99,10 +113,11 @@ TRUSTED = ['PyMatching Matching(H, spacelike_weights=w).decode(s): minimum-weigh
            'ldpc BpOsdDecoder.decode(s): returned vector solves H c = s whenever s is in the image of H; it is a '
            'function of (matrix, channel probabilities, syndrome) (contract hypothesis; tested by the spy)',
            'panqec uf_support.Support(s, H).decode(): contract hypothesis of the glue theorem in Properties/C05, '
-           'DISCHARGED for the Lean model of the internals on closed graphs by Properties/C05UnionFind '
+           'DISCHARGED for the Lean model of the internals on closed multigraphs by Properties/C05UnionFind '
            '(uf_solver_contract, every set iteration order); model tied to the implementation by a step-granular '
            'correspondence on every run; numpy/scipy semantics of the matrix operations used by uf_support.py '
-           '(boolean-mask assignment on csr matrices, np.where order, np.unique, uint8 product H @ H.T, set '
+           '(boolean-mask assignment on csr matrices, np.where order, np.unique, argmax of a boolean row = first '
+           'True or 0, uint8 product H @ H.T, set '
            'iteration order fixed for one set object) as transcribed',
            'SweepDecoder3D / RotatedSweepDecoder3D .decode return a Z-only vector of length 2n (black box here; C10)',
            'XCubeMatchingDecoder: CPython iteration order of a set of at most four ints below 8 is ascending '
@@ -784,8 +799,8 @@ def oracle_cases(ctx, deep):
     from panqec.config import CODES, DECODERS
     rng = ctx.np_rng(17)
     cases = []
-    # corpus: smallest witness of known finding D15 (union-find on a torus with a side of length 2);
-    # evaluated on every run so that the KNOWN-FINDING line is always printed
+    # corpus: witness of the former defect D15 (union-find on a torus with a side of length 2: parallel edges,
+    # Peeling_Tree.peel flipped both qubits of a tree edge), fixed c364d83; regression input, must pass
     cases.append({'decoder': 'UnionFindDecoder', 'code': 'Toric2DCode', 'size': [2, 2],
                   'direction': [0.25, 0.25, 0.5], 'p': 0.125, 'errors': [[[0], []]], 'kind': 'corpus-D15'})
     # corpus: witness of the former defect D16 (XCube matching on a lattice that is not Lx <= Ly <= Lz), fixed 869642d
@@ -812,18 +827,21 @@ def oracle_cases(ctx, deep):
             for (d, nd, p) in [((0.25, 0.25, 0.5), None, 0.125), ((0.125, 0.125, 0.75), 'XZZX', 0.0625)]:
                 cases.append({'decoder': dname, 'code': cname, 'size': list(size), 'direction': list(d),
                               'noise_deformation': nd, 'p': p, 'errors': errs, 'kind': 'tiny-exhaustive'})
-    # union-find on lattices without parallel edges (both sides >= 3); sides of length 2 are a known finding
-    for size in ([(3, 3), (3, 4), (4, 3), (4, 4), (3, 5)] if deep else [(3, 3), (3, 4), (4, 3)]):
+    # union-find on every shape of torus, sides of length 2 (parallel edges) like the others: random errors,
+    # every single-qubit X and Z error, the trivial syndrome
+    for size in ([(2, 2), (2, 3), (3, 2), (2, 5), (4, 2), (3, 3), (3, 4), (4, 3), (4, 4), (3, 5), (2, 8), (6, 2)]
+                 if deep else [(2, 2), (2, 3), (3, 2), (2, 5), (4, 2), (3, 3), (3, 4), (4, 3)]):
         code = make_code('Toric2DCode', size)
         em = make_noise((0.25, 0.25, 0.5))
         errs = [supports(e, code.n) for e in random_errors(code, em, rng, 24 if deep else 12)]
         errs += [[[int(q)], []] for q in range(code.n)] + [[[], [int(q)]] for q in range(code.n)] + [[[], []]]
         cases.append({'decoder': 'UnionFindDecoder', 'code': 'Toric2DCode', 'size': list(size),
-                      'direction': [0.25, 0.25, 0.5], 'p': 0.125, 'errors': errs, 'kind': 'uf-side>=3'})
+                      'direction': [0.25, 0.25, 0.5], 'p': 0.125, 'errors': errs, 'kind': 'uf-torus'})
     # deep search only: dense syndromes on larger 2-D lattices (chained cluster merges in union-find,
     # long matchings) -- the regime no small lattice reaches
     if deep:
         for cname, size in [('Toric2DCode', (7, 7)), ('Toric2DCode', (6, 9)), ('Toric2DCode', (8, 8)),
+                            ('Toric2DCode', (2, 12)), ('Toric2DCode', (10, 2)),
                             ('Planar2DCode', (7, 7)), ('RotatedPlanar2DCode', (9, 8))]:
             code = make_code(cname, size)
             em = make_noise((0.5, 0.25, 0.25))
@@ -906,7 +924,7 @@ def shape_of(size):
 
 def match_key(c):
     return {'decoder': c['decoder'], 'code': c['code'], 'code_deformation': c.get('code_deformation'),
-            'size_class': 'min-side-2' if min(c['size']) <= 2 else 'min-side>=3', 'shape': shape_of(c['size'])}
+            'shape': shape_of(c['size'])}
 
 
 def oracle(ctx, deep=False, broken=None):
